@@ -744,9 +744,17 @@ func init() {
 		plainMultiGPU: "SelectGPU panics for more than one GPU (dnn/layer_benchmarks/im2col/benchmark.go:56)",
 		gen: func(t *rapid.T, nq int, timing bool) params {
 			for {
+				// many channels on a small image give a work-group grid that is much taller than
+				// wide (the channel count is a code-imposed free parameter; the image is kept small
+				// then for cost)
+				ch := rapid.SampledFrom([]int{1, 2, 3, 1, 2, 3, 8, 16, 64, 128}).Draw(t, "C")
+				maxHW := 24
+				if ch > 3 {
+					maxHW = 8
+				}
 				p := params{
-					"N": rapid.IntRange(1, 3).Draw(t, "N"), "C": rapid.IntRange(1, 3).Draw(t, "C"),
-					"H": rapid.IntRange(1, 24).Draw(t, "H"), "W": rapid.IntRange(1, 24).Draw(t, "W"),
+					"N": rapid.IntRange(1, 3).Draw(t, "N"), "C": ch,
+					"H": rapid.IntRange(1, maxHW).Draw(t, "H"), "W": rapid.IntRange(1, maxHW).Draw(t, "W"),
 					"kernel-height": rapid.IntRange(1, 5).Draw(t, "kernel-height"),
 					"kernel-width":  rapid.IntRange(1, 5).Draw(t, "kernel-width"),
 					"pad-x":         rapid.IntRange(0, 2).Draw(t, "pad-x"), "pad-y": rapid.IntRange(0, 2).Draw(t, "pad-y"),
